@@ -14,6 +14,7 @@ pub mod c11;
 pub mod c12;
 pub mod c13;
 pub mod c14;
+pub mod c15;
 
 use crate::ctx::Ctx;
 use crate::report::Report;
@@ -35,6 +36,7 @@ pub fn dispatch(ctx: &Ctx, rep: &mut Report) -> bool {
         "C12" => c12::run(ctx, rep),
         "C13" => c13::run(ctx, rep),
         "C14" => c14::run(ctx, rep),
+        "C15" => c15::run(ctx, rep),
         _ => return false,
     }
     true
